@@ -161,32 +161,33 @@ theorem merkle_getHash_eq_ident (t : Tx) : Model.Merkle.getHash t = Model.Ident.
   unfold Model.Merkle.getHash Model.Ident.getHash Model.Ident.getHashWith
   cases Model.Wire.serTx t <;> rfl
 
-/-- C02's `GetTxid` validates only `nLockTime` when it rebuilds the stripped transaction; it agrees
-    with the two others whenever the inputs would pass the constructor (always the case for an
-    immutable transaction) -/
-theorem ident_getTxid_eq_merkle (t : Tx) (h : t.vin.all Spec.ValueSem.validTxIn = true) :
-    Model.Ident.getTxid t = Model.Merkle.getTxid t := by
+/-- C02's and C15's `GetTxid` are the same function: since C02 mirrors the constructor validation of
+    the stripped copy (`Model.Ident.ctorValid`, the same predicate as `Model.Merkle.ctorValid`) the
+    agreement is unconditional -/
+theorem ident_getTxid_eq_merkle_all (t : Tx) : Model.Ident.getTxid t = Model.Merkle.getTxid t := by
+  have hcv : Model.Ident.ctorValid t = Model.Merkle.ctorValid t := rfl
   unfold Model.Ident.getTxid Model.Ident.getTxidWith Model.Ident.witNeDefault Model.Merkle.getTxid
   cases hw : Model.Wire.serWitness t.wit with
   | error e => rfl
   | ok w =>
     have h0 : Model.Wire.serWitness [] = .ok [] := rfl
-    have hv : Model.Merkle.ctorValid t = decide (t.nLockTime ≤ 0xffffffff) := by
-      rw [ctorValid_eq_validTx]; unfold Spec.ValueSem.validTx; rw [h]; simp
-    simp only [bind, Except.bind, h0, pure, Except.pure, hv]
+    simp only [bind, Except.bind, h0, pure, Except.pure, hcv]
     by_cases hne : w = []
     · subst hne
       simp
       cases Model.Wire.serTx t <;> rfl
     · have : (w != []) = true := by simpa using hne
       simp only [this, if_true, ne_eq, hne, not_false_eq_true]
-      by_cases hl : t.nLockTime > 0xffffffff
-      · have : ¬ t.nLockTime ≤ 0xffffffff := by omega
-        simp [hl, this, throw, throwThe, MonadExceptOf.throw]
-      · have : t.nLockTime ≤ 0xffffffff := by omega
-        simp only [hl, if_false, this, decide_true, if_true]
+      cases hc : Model.Merkle.ctorValid t with
+      | false => simp [throw, throwThe, MonadExceptOf.throw]
+      | true =>
+        simp only [Bool.not_true, Bool.false_eq_true, if_false, if_true]
         unfold Tx.strip
         cases Model.Wire.serTx { t with wit := [] } <;> rfl
+
+/-- (kept for its users; the hypothesis is no longer needed, see `ident_getTxid_eq_merkle_all`) -/
+theorem ident_getTxid_eq_merkle (t : Tx) (_h : t.vin.all Spec.ValueSem.validTxIn = true) :
+    Model.Ident.getTxid t = Model.Merkle.getTxid t := ident_getTxid_eq_merkle_all t
 
 theorem getHeader_eq_ident (b : Block) : Model.BlockCheck.getHeader b.hdr = Model.Ident.getHeader b := by
   unfold Model.BlockCheck.getHeader Model.Ident.getHeader
